@@ -200,6 +200,26 @@ func respCells(tier string) []cells.Cell {
 		comp(s, false)
 		s.Paths = []*spec.PathItem{{Template: "/p", Ops: []*spec.Op{{Method: "GET", Responses: []*spec.Response{{Status: "default", Ref: "Shared"}}}, {Method: "POST", Responses: []*spec.Response{{Status: "default", Ref: "Shared"}, {Status: "200", Desc: "r"}}}}}}
 	})
+	mk("one-op-component-and-alias", func(s *spec.Spec) {
+		comp(s, true)
+		s.Paths = []*spec.PathItem{{Template: "/p", Ops: []*spec.Op{{Method: "GET", Responses: []*spec.Response{{Status: "200", Ref: "Shared"}, {Status: "201", Ref: "SharedAlias"}}}}}}
+	})
+	mk("three-ops-aba", func(s *spec.Spec) {
+		// one component at the statuses 400, 409, 400 of three operations in path/method order
+		comp(s, false)
+		s.Paths = []*spec.PathItem{{Template: "/a", Ops: []*spec.Op{{Method: "GET", Responses: []*spec.Response{{Status: "400", Ref: "Shared"}, {Status: "200", Desc: "r"}}}}},
+			{Template: "/b", Ops: []*spec.Op{{Method: "GET", Responses: []*spec.Response{{Status: "409", Ref: "Shared"}, {Status: "200", Desc: "r"}}}}},
+			{Template: "/c", Ops: []*spec.Op{{Method: "GET", Responses: []*spec.Response{{Status: "400", Ref: "Shared"}, {Status: "200", Desc: "r"}}}}}}
+	})
+	mk("header-component-under-three-names", func(s *spec.Spec) {
+		// one components.headers entry used under different header names by a component response and two inline ones
+		s.Comp.Headers = []spec.NamedHeader{{Name: "Counter", Header: &spec.Header{Schema: spec.TF("integer", "int32")}}}
+		s.Comp.Responses = []spec.NamedResponse{{Name: "Slow", Response: &spec.Response{Desc: "r", Headers: []*spec.Header{{Name: "Retry-After", Ref: "Counter"}}}}}
+		s.Paths = []*spec.PathItem{{Template: "/p", Ops: []*spec.Op{{Method: "GET", Responses: []*spec.Response{
+			{Status: "200", Desc: "r", Headers: []*spec.Header{{Name: "X-Total-Count", Ref: "Counter"}}},
+			{Status: "202", Desc: "r", Headers: []*spec.Header{{Name: "X-Queue-Length", Ref: "Counter"}, {Name: "X-Total-Count", Ref: "Counter"}}},
+			{Status: "429", Ref: "Slow"}}}}}}
+	})
 	mk("array-headers", func(s *spec.Spec) {
 		s.Comp.Headers = []spec.NamedHeader{{Name: "Ids", Header: &spec.Header{Schema: spec.Arr(spec.TF("integer", "int64"))}}}
 		s.Paths = []*spec.PathItem{{Template: "/p", Ops: []*spec.Op{{Method: "GET", Responses: []*spec.Response{{Status: "200", Desc: "r", Headers: []*spec.Header{{Name: "X-Tags", Required: true, Schema: spec.Arr(spec.T("string"))}, {Name: "X-Ids", Ref: "Ids"}, {Name: "X-One", Schema: spec.T("string")}}},
